@@ -219,8 +219,10 @@ func checkC07(c *harness.Check) {
 	for _, s := range corpus.Seeds {
 		d := c.Pick(2, 3)
 		switch {
-		case strings.Contains(s.Tags, "low"):
+		case strings.Contains(s.Tags, "fortress"):
 			d = c.Pick(7, 10)
+		case strings.Contains(s.Tags, "low"):
+			d = c.Pick(4, 6)
 		case !strings.Contains(s.Tags, "big"):
 			d = c.Pick(3, 4)
 		}
